@@ -73,6 +73,11 @@ LONELY = [
     ("chout", "void getbuf(char *buf +intent(out)+charlen(20))", "void getbuf(char *buf);", ""),
     ("intalloc", "int *mk(int n) +dimension(n)+deref(allocatable)", "int *mk(int n);", ""),
     ("strio", "void twist(std::string &s +intent(inout))", "void twist(std::string &s);", "#include <string>\n"),
+    # element types that need their own header in the C prototype of the bufferify wrapper
+    ("vec64", "int count_nonzero(const std::vector<int64_t> &arg)", "int count_nonzero(const std::vector<int64_t> &arg);", "#include <vector>\n#include <cstdint>\n"),
+    ("vecu64", "void fill64(std::vector<uint64_t> &v +intent(out))", "void fill64(std::vector<uint64_t> &v);", "#include <vector>\n#include <cstdint>\n"),
+    ("vecsz", "size_t total(const std::vector<size_t> &v)", "size_t total(const std::vector<size_t> &v);", "#include <vector>\n#include <cstddef>\n"),
+    ("arr32", "void scale32(int32_t *v +rank(1)+intent(inout), int n +implied(size(v)))", "void scale32(int32_t *v, int n);", "#include <cstdint>\n"),
 ]
 
 GEN_HPP = r'''#pragma once
